@@ -1,0 +1,7 @@
+//go:build !verif
+// +build !verif
+
+package raft
+
+// verifSnapshotC is nil (never ready) unless built with -tags verif (see verif_hooks.go).
+func (this *RaftGroup) verifSnapshotC() chan chan error { return nil }
